@@ -350,7 +350,7 @@ fn explore(ctx: &Ctx, which: Which, threads: &[Vec<COp>], bound: usize, max_runs
 
 pub fn run(ctx: &Ctx, which: Which) {
     ctx.set_rule(match which {
-        Which::C15 => "Two or three controlled threads execute catalogue operations (17 readers, 19 writers incl. serialize, path, iterate, check_references, create, remove, rename, move, copy, set data, set_reference_target, attributes, comment, sort, create_file, remove_file, add_to_file, remove_from_file, load_buffer, duplicate) on a fixture whose roles place the operands as same / parent-child / ancestor-descendant / referrer-target / unrelated / other model. The harness owns the schedule (lock shim): every lock request is a scheduling point, timed waits can be fired by the schedule; (a) all ordered operation pairs of a curated list with all schedules up to a preemption bound, (b) proptest-generated operations and schedules. Oracle: a state in which every unfinished thread waits on a non-timed request is a deadlock. Non-trivial: the threads contended for at least one lock; distinct by operations + choices.",
+        Which::C15 => "Two or three controlled threads execute catalogue operations (17 readers, 19 writers incl. serialize, path, iterate, check_references, create, remove, rename, move, copy, set data, set_reference_target, attributes, comment, sort, create_file, remove_file, add_to_file, remove_from_file, load_buffer, duplicate) on a two-file model (some elements with file sets of their own) plus a second model; the roles place the operands as same / parent-child / ancestor-descendant / referrer-target / unrelated / other model. The harness owns the schedule (lock shim): every lock request is a scheduling point, timed waits can be fired by the schedule; (a) all ordered operation pairs of a curated list with all schedules up to a preemption bound, (b) proptest-generated operations and schedules. Oracle: a state in which every unfinished thread waits on a non-timed request is a deadlock. Non-trivial: the threads contended for at least one lock; distinct by operations + choices.",
         Which::C16 => "Same generators as C15. Oracle: the per-operation results and the final id-free state summary (per-file text, tree with comments and file membership, path index, reverse reference map, invalid-reference report of both models) must equal those of SOME sequential order of the operations (all interleavings of whole operations are executed on fresh fixtures); operations that returned ParentElementLocked are left out of the sequential runs (they must have had no effect); tree / path / reference / membership invariants must hold afterwards. Non-trivial: the threads contended for at least one lock; distinct by operations + choices.",
     });
     ctx.assume("the logical lock table mirrors parking_lot's writer-preference policy as read from its source; wake-up order among waiters is over-approximated (any enabled thread may run next)");
@@ -371,6 +371,9 @@ pub fn run(ctx: &Ctx, which: Which) {
         COp { code: 13, a: 14, b: 19 },
         COp { code: 14, a: 4, b: 0 },
         COp { code: 16, a: 7, b: 0 },
+        COp { code: 0, a: 1, b: 0 },
+        COp { code: 5, a: 23, b: 0 },
+        COp { code: 1, a: 3, b: 0 },
     ];
     let writers: Vec<COp> = vec![
         COp { code: 17, a: 4, b: 0 },
@@ -395,6 +398,11 @@ pub fn run(ctx: &Ctx, which: Which) {
         COp { code: 32, a: 12, b: 0 },
         COp { code: 33, a: 0, b: 0 },
         COp { code: 34, a: 0, b: 0 },
+        // elements with file sets of their own (second.arxml): move, remove from / add to a file, remove
+        COp { code: 21, a: 24, b: 23 },
+        COp { code: 32, a: 23, b: 2 },
+        COp { code: 31, a: 26, b: 0 },
+        COp { code: 19, a: 23, b: 0 },
     ];
     let mut pairs: Vec<(COp, COp)> = vec![];
     for w in &writers {
